@@ -1183,7 +1183,7 @@ int main(int argc, char **argv)
 		else deep.push_back({ k, 700 });
 	}
 	long nDeep = (long)deep.size();
-	long nTheme = thorough ? 30000 : 1500;   /* catch loops, closures called repeatedly, array subtraction: a third each */
+	long nTheme = thorough ? 9000 : 1500;   /* catch loops, closures called repeatedly, array subtraction: a third each */
 	long total = nProg + nExpr + nChaos + nHostile + nDeep + nTheme;
 	RunAll(total, [&](long i) {
 		Case c;
